@@ -452,6 +452,15 @@ class Translator:
                 if d['id'] in self.ref_locals:
                     return '(*%s)' % name
                 return name
+            if d['id'] in getattr(self, 'lambdas', {}):
+                # a capture-less lambda handed on as a VALUE (e.g. to a function template): the closure object has no state;
+                # the callee's instantiation for this closure type is a function of its own (extracted or under contract)
+                lam = self.lambdas[d['id']]
+                caps = [x for x in walk(lam.get('_parent') or {}) if x.get('kind') == 'LambdaExpr' for c in x.get('inner', []) if c and c.get('kind') == 'FieldDecl'] if False else []
+                ct = self.tm.tname(n['type']).rstrip(' *').rstrip()
+                if not ct.startswith('struct '):
+                    self.abort(n, 'lambda %s used as a value of type %s' % (d.get('name'), ct))
+                return '((%s){ 0 })' % ct
             if kind == 'VarDecl':
                 full = self.full_decl(d)
                 if full is not None and full.get('_parent') is not None and \
